@@ -93,6 +93,12 @@ func buildNativeOverlay(repo, harnessDir, pkgDir, tmp string) (string, error) {
 	t := strings.Replace(string(ntest), "package PKG", "package "+pkgName, 1)
 	t = strings.Replace(t, "HARNESS_TABLE", tab.String(), 1)
 	os.WriteFile(p2, []byte(t), 0o644)
+	if pkgDir == "p9" {
+		src, _ := genConnCtor(repo)
+		p3 := filepath.Join(tmp, "gen_conn.go")
+		os.WriteFile(p3, []byte(src), 0o644)
+		replace[filepath.Join(repo, pkgDir, "zz_verif_gen_conn.go")] = p3
+	}
 	replace[filepath.Join(repo, pkgDir, "zz_verif_prelude.go")] = p1
 	replace[filepath.Join(repo, pkgDir, "zz_verif_replay_test.go")] = p2
 	ov := filepath.Join(tmp, "overlay.json")
